@@ -85,7 +85,10 @@ SetStrM(m, lit) == LET m1 == ResizeM(m, N(0))
                        c == CStr(lit, 0)
                    IN InsertStrNM(m1, N(Size(m1.s)), c, N(Len(c)))
 \* a temporary partner built from literal id (0: a fresh object); never fails
-Partner(id) == IF id = 0 THEN Fresh ELSE SetStrM(Mk(Fresh, TRUE), Lits[id]).s
+\* id 8: the string "ab" with a NUL inserted at position 1 (an object whose contents hold an embedded NUL)
+Partner(id) == IF id = 0 THEN Fresh
+               ELSE IF id = 8 THEN InsertChM(SetStrM(Mk(Fresh, TRUE), Lits[4]), N(1), N(1), 0).s
+               ELSE SetStrM(Mk(Fresh, TRUE), Lits[id]).s
 EraseM(m, idx, len) ==
     LET size == Size(m.s) IN
     IF TGe(idx, size) THEN Abort(m)
